@@ -72,3 +72,97 @@ Definition mon_http (mask : N) (c : nat * nat * list (hop * hout)) : N :=
 
 Definition mon_c07 := mon_http 3%N.
 Definition mon_c02_http := mon_http 2%N.
+
+(* ---- C20: operator reports on the udp tracker ---- *)
+From Aquatic Require Import Export.
+
+Definition fh_eqb (a b : bool * N) : bool := Bool.eqb (fst a) (fst b) && N.eqb (snd a) (snd b).
+
+Fixpoint add_seen (x : bool * N) (l : list (bool * N)) : list (bool * N) :=
+  match l with
+  | [] => [x]
+  | y :: t => if fh_eqb x y then l else y :: add_seen x t
+  end.
+
+Definition stored_total (r : rstate) (seen : list (bool * N)) (v6 : bool) : nat * nat :=
+  let mine := filter (fun x => Bool.eqb (fst x) v6) seen in
+  (length (filter (fun x => match r v6 (snd x) with [] => false | _ => true end) mine),
+   list_sum (map (fun x => length (r v6 (snd x))) mine)).
+
+Definition stored_pid_count (r : rstate) (seen : list (bool * N)) (pid : N) : nat :=
+  list_sum (map (fun x => length (filter (fun e => N.eqb (p_id (snd e)) pid) (r (fst x) (snd x)))) seen).
+
+Definition msgs_of (o : uout) : list statmsg :=
+  match o with OAnnounce _ _ _ m => m | OClean _ _ _ _ m _ => m | OScrape _ => [] end.
+
+Definition msg_pid (m : statmsg) : N := match m with PeerAdded p => p | PeerRemoved p => p end.
+
+(* expected export lines: torrents with a peer after expiry (state before forbidden ones go) *)
+Definition expected_lines (r : rstate) (seen : list (bool * N)) (now : N) : list (bool * N * nat * nat) :=
+  flat_map (fun x => let l := ref_clean now (r (fst x) (snd x)) in
+                     match l with [] => [] | _ => [(fst x, snd x, count_seeders l, length l - count_seeders l)] end) seen.
+
+(* bits: 2 = tallies equal stored peers per id (checked after every op), 3 = totals, 4 = export lines *)
+Definition mon20_op (mask : N) (pc : bool) (r : rstate) (seen : list (bool * N)) (t : tally) (pids : list N)
+           (op : uop) (out : uout) : bool * tally * list N :=
+  let r' := fst (r_step r op) in
+  let seen' := match op with UAnnounce v6 h _ _ _ _ _ _ _ _ => add_seen (v6, h) seen | _ => seen end in
+  let t' := fold_left tally_step (msgs_of out) t in
+  let pids' := fold_left (fun acc m => if mem (msg_pid m) acc then acc else msg_pid m :: acc) (msgs_of out) pids in
+  let pids'' := match op with UAnnounce _ _ _ _ _ pid _ _ _ _ => if mem pid pids' then pids' else pid :: pids' | _ => pids' end in
+  let tally_ok := if pc then forallb (fun p => Nat.eqb (tally_count t' p) (stored_pid_count r' seen' p)) pids'' else true in
+  let rest :=
+    match op, out with
+    | UClean now _ _, OClean t4 p4 t6 p6 _ lines =>
+        let '(et4, ep4) := stored_total r' seen' false in
+        let '(et6, ep6) := stored_total r' seen' true in
+        asp mask 3 (Nat.eqb t4 et4 && Nat.eqb p4 ep4 && Nat.eqb t6 et6 && Nat.eqb p6 ep6)
+        && asp mask 4 (perm_eqb line_eqb lines (expected_lines r seen' now))
+    | _, _ => true
+    end in
+  (asp mask 2 tally_ok && rest, t', pids'').
+
+Fixpoint mon20_history (mask : N) (pc : bool) (r : rstate) (seen : list (bool * N)) (t : tally) (pids : list N)
+         (i : N) (h : list (uop * uout)) : option N :=
+  match h with
+  | [] => None
+  | (op, out) :: rest =>
+      let '(ok, t', pids') := mon20_op mask pc r seen t pids op out in
+      if ok then
+        mon20_history mask pc (fst (r_step r op))
+                      (match op with UAnnounce v6 hh _ _ _ _ _ _ _ _ => add_seen (v6, hh) seen | _ => seen end)
+                      t' pids' (N.succ i) rest
+      else Some i
+  end.
+
+Definition mon_c20 (c : nat * bool * list (uop * uout)) : N :=
+  let '(_, pc, h) := c in
+  (match mon20_history 28%N pc rinit [] [] [] 0%N h with None => 0 | Some i => N.succ i end * 4)%N.
+
+(* known-finding classes of C20 present in a history (decided on the reference state):
+   bit 0: an announce finds its key stored under ANOTHER peer id ("tally-peer-id-change");
+   bit 1: a cleaning pass drops a forbidden torrent that still has unexpired peers
+          ("forbidden-torrent-with-peers": peers total and tallies keep counting them) *)
+Fixpoint c20_classes (r : rstate) (seen : list (bool * N)) (h : list (uop * uout)) : N :=
+  match h with
+  | [] => 0%N
+  | (op, _) :: rest =>
+      let here :=
+        match op with
+        | UAnnounce v6 hh key _ _ pid _ _ _ _ =>
+            match find_key key (r v6 hh) with
+            | Some p => if N.eqb (p_id p) pid then 0%N else 1%N
+            | None => 0%N
+            end
+        | UClean now mode acl =>
+            if existsb (fun x => negb (allows mode acl (snd x))
+                                 && match ref_clean now (r (fst x) (snd x)) with [] => false | _ => true end) seen
+            then 2%N else 0%N
+        | _ => 0%N
+        end in
+      N.lor here (c20_classes (fst (r_step r op))
+                              (match op with UAnnounce v6 hh _ _ _ _ _ _ _ _ => add_seen (v6, hh) seen | _ => seen end) rest)
+  end.
+
+Definition c20_class_code (c : nat * bool * list (uop * uout)) : N :=
+  let '(_, _, h) := c in (c20_classes rinit [] h * 4)%N.
